@@ -145,6 +145,9 @@ class _STIXBase(collections.abc.Mapping):
         custom_props = kwargs.pop('custom_properties', {})
         if custom_props and not isinstance(custom_props, dict):
             raise ValueError("'custom_properties' must be a dictionary")
+        if not custom_props:
+            # None or another empty value: nothing to add
+            custom_props = {}
 
         # Detect any keyword arguments representing customization.
         # In STIX 2.1, this is complicated by "toplevel-property-extension"
